@@ -1113,6 +1113,12 @@ namespace Pistache::Http
         auto& request = parser->request;
         try
         {
+            // The read time-outs run from the start of a request: on a keep-alive
+            // connection that is when its first bytes arrive, not when the previous
+            // request was completed.
+            if (parser->atStart())
+                parser->restartTime();
+
             if (!parser->feed(buffer, len))
             {
                 parser->reset();
